@@ -1358,8 +1358,11 @@ impl Router {
                 data.log.verif_head_offset(),
                 data.log.next_offset().1,
             ));
+            snap.filter_segments
+                .push((data.verif_filter().to_owned(), data.log.verif_segment_count()));
         }
         snap.filters.sort();
+        snap.filter_segments.sort();
         snap.graveyard = self.graveyard.verif_ids();
         snap.last_wills = self.last_wills.keys().cloned().collect();
         snap.last_wills.sort();
